@@ -97,7 +97,12 @@ def execute(ctx, rows_file, tag, nrows, shards=None, layer="L1"):
     info = json.loads(vf.tool(TOOL, args, timeout=1500, cwd=ctx.shm).strip().splitlines()[-1])
     files = ["%s.%d" % (out, i) for i in range(info["shards"])]
     files = [f for f in files if os.path.exists(f) and os.path.getsize(f) > 0]
-    got = sum(1 for f in files for _ in open(f))
+    got = 0
+    for f in files:
+        for line in open(f):
+            got += 1
+            if '"retried":""' not in line:
+                ctx.count("rows_retried_after_infrastructure_error")
     if got != nrows:
         raise vf.Infra("hkv-mcp executed %d of %d rows" % (got, nrows))
     ctx.cov["traces_validated_against_impl"] += got
